@@ -20,6 +20,11 @@ CHECKS = {
     note=BASE + "determinism of the real search at Threads=1 is observed (fresh engine run twice); synthetic network; caches kept by Clear Hash assumed transparent (C07).",
     technique="Lean 4 proof on the table model (clear = fresh; generation-zero witness) + two-process differential of complete search output after arbitrary prior sessions incl. generation-wrap lengths",
     design="6/C14"),
+ "C05": dict(
+    text="Lean theorems (Props/C05.lean): the contract automaton Uci.accepts and what acceptance means (exactly one bestmove per go / readyok per isready / uciok per uci; search output only while a search is outstanding; a ponder/infinite search is not answered before stop/ponderhit/quit); command-dispatch model: the repaired dispatch never dereferences a missing engine object for any command sequence, witness that the pinned commit crashed on `ponderhit`. Partial: the interplay of protocol and engine thread that produces the timeline is modelled under C10; here real timelines of the ASan/UBSan binary for generated scripts are judged by the Lean acceptor, plus exit status, sanitizer reports, termination.",
+    note=BASE + "timeline = order observed by the driver (commands logged before they are written); well-formedness of individual lines is judged by a line classifier; synthetic network.",
+    technique="Lean 4 proof (contract automaton properties, dispatch no-crash) + acceptance of real ASan/UBSan engine session timelines for generated command scripts",
+    design="6/C05"),
  "C08": dict(
     text="Lean theorems (Props/C08.lean): bucket index aligned and in range for every size >= 512 and every 64-bit key; field layout disjoint and lossless; xor validation makes any validating pair of words bit-identical to one unit record (relaxed-atomic over-approximation); ply shift exact; hash buckets disjoint from the resident-tablebase bytes; insert writes only inside its bucket. The universally quantified part is proved; the tie to the C++ is a differential run.",
     note=BASE + "no 64-bit key/xor coincidences (explicit hypothesis); relaxed atomics modelled as 'a load returns some previously written value of that word'; harness reads private members.",
